@@ -72,7 +72,7 @@ theorem walkParams_enc (ext : Bool) (gs : List (List Cap)) (hw : gs.all (wfGroup
       obtain ⟨hcaps, hlen⟩ := hg
       have wc := walkCaps_enc g hcaps (groupLen g + 1) (by have := length_le_groupLen g; omega)
       have ihh := ih ht f hf'
-      simp only [encParams] at ihh
+      clear ih
       cases ext with
       | false =>
         simp only [if_false, Bool.false_eq_true] at hlen
@@ -84,7 +84,8 @@ theorem walkParams_enc (ext : Bool) (gs : List (List Cap)) (hw : gs.all (wfGroup
           List.drop_left' rfl
         rw [e]
         have gl : (g.flatMap encCapTLV).length = groupLen g := rfl
-        simp [walkParams, tk, dr, gl, wc, encParams, ihh]
+        generalize encParams false t = rest at *
+        simp [walkParams, tk, dr, gl, wc, ihh]
         try rw [if_neg (by omega), if_neg (by omega)]
       | true =>
         simp only [if_true] at hlen
@@ -102,7 +103,8 @@ theorem walkParams_enc (ext : Bool) (gs : List (List Cap)) (hw : gs.all (wfGroup
           rw [Nat.add_comm, ← List.drop_drop, d3, dr]
         rw [e]
         have gl : (g.flatMap encCapTLV).length = groupLen g := rfl
-        simp [walkParams, r, d3, tk, dr', gl, wc, encParams, ihh]
+        generalize encParams true t = rest at *
+        simp [walkParams, r, d3, tk, dr', gl, wc, ihh]
         try rw [if_neg (by omega), if_neg (by omega)]
 
 end Exa.Open
